@@ -3,6 +3,10 @@
 // Contracts for package reader, checked by /verif/govc (comment-only file; it declares nothing).
 package reader
 
+// decoding does a bounded amount of work per datagram (C02): no function of this package may wait on a channel;
+// a channel operation has to be a case of a select with a default clause
+//@ pkgopt nonblocking *
+
 //@ ghost field Reader.base []byte = data
 //@ globalinv errReader != nil && typeid(errReader) == tyof(*errors.errorString)
 //@ pred inv(r *Reader) = 0 <= r.count && r.count <= len(r.base) && r.data == r.base[r.count:]
